@@ -256,8 +256,7 @@ fn failed_append(kind: u8, short: usize, rollback_fault: u8, retry: bool, witnes
     std::mem::forget(w);
 }
 
-// The cut position is a concrete row per harness: a symbolic memcpy length into the file model is what makes
-// these harnesses run > 25 min (measured); 0 / 7 / 51 cover "nothing written", "inside the length+payload" and
+// Concrete cut positions (quick tier) 0 / 7 / 51 cover "nothing written", "inside the length+payload" and
 // "all but the last checksum byte".
 fn short_write_0(witness: bool) {
     failed_append(0, 0, 0, false, witness);
@@ -280,6 +279,12 @@ fn retry_body(witness: bool) {
     failed_append(0, 10, 0, true, witness);
 }
 
+fn short_write_any(witness: bool) {
+    let short: usize = kani::any();
+    kani::assume(short < FRAME_EMPTY);
+    failed_append(0, short, 0, false, witness);
+}
+pers_harness!(c03_o4_short_write_any, c03_o4_short_write_any__witness, short_write_any, 50);
 pers_harness!(c03_o4_short_write_0, c03_o4_short_write_0__witness, short_write_0, 50);
 pers_harness!(c03_o4_short_write_7, c03_o4_short_write_7__witness, short_write_7, 50);
 pers_harness!(c03_o4_short_write_51, c03_o4_short_write_51__witness, short_write_51, 50);
